@@ -84,8 +84,8 @@ def kreg(name, props, maxb, unwind, desc, tier="quick", timeout=900, mem=6, **kw
     return reg(props, H("k::" + name, unwind=unwind, timeout=timeout, mem_gb=mem, tier=tier, desc=desc,
                         bounds=dict(_KB, MAXB=maxb), **kw))
 
-kreg("k_unsigned", ["C04", "C05", "C09", "C10", "C01"], 17, 18, "unsigned kernel: decode iff width in {1,2,3,4,8,16} and bytes available; value = big-endian reading; same-width re-export")
-kreg("k_signed", ["C04", "C05", "C01"], 17, 18, "signed kernel: widths 1,2,3,4 value-exact (sign extension); 3,4 re-export exact", tier="thorough")
+kreg("k_unsigned", ["C04", "C05", "C09", "C10", "C01"], 17, 18, "unsigned kernel: widths 1,2,3,4,8,16 decode whenever the bytes are available, into the variant of that width, and re-export at the same width; whatever decodes (any width) consumes exactly the declared bytes and carries their big-endian value")
+kreg("k_signed", ["C04", "C05", "C01"], 17, 18, "signed kernel: widths 1,2,3,4 value-exact (sign extension); 3,4 re-export exact; every declared length incl. 0: no panic")
 kreg("k_signed_wide_kf", ["C04", "C05"], 16, 18, "finding witness: 8/16-byte signed truncated to i32", expect="fail", finding="C04-signed-8-16-truncated", tier="thorough")
 kreg("k_signed_reexport_kf", ["C09", "C10"], 16, 18, "finding witness: 1/2/8/16-byte signed re-exported as 4 bytes", expect="fail", finding="C09-signed-width", tier="thorough")
 kreg("k_dur_secs", ["C04", "C05", "C01"], 17, 18, "duration(seconds) kernel, value-exact for widths <= 8; to_be_bytes never panics", tier="thorough")
@@ -415,7 +415,8 @@ THOROUGH_ONLY = [r"^ser::", r"^cv::", r"s_ipfix_undecodable", r"^p::p_v9_(two_se
                  r"^w::w_real_5_stray", r"^fixed::error_common", r"count_\d+$"]
 # per-property quick-tier exclusions (the harness still runs in that property's thorough tier and in
 # the quick tier of the other properties it serves): keeps every quick command well under 900 s
-QUICK_EXCLUDE = {"C06": [r"^w::w_shape_(10_7_stray|7_5cut)$", r"^s10::s_ipfix_template_e_p$", r"^s10::s_ipfix_options_template_2_1$",
+QUICK_EXCLUDE = {"C04": [r"^p::p_v9_unknown_second$"],
+                 "C06": [r"^w::w_shape_(10_7_stray|7_5cut|9_unknown)$", r"^w::w_allowed_four_10$", r"^s10::s_ipfix_template_e_p$", r"^s10::s_ipfix_options_template_2_1$",
                          r"^s10::s_ipfix_template_(2p_c2|1p_c1pad)$", r"^s10::s_ipfix_options_template_(1_1_c2|2_1_c2)$"],
                  "C05": [r"^s10::s_ipfix_template_e_p$", r"^s10::s_ipfix_options_template_2_1$",
                          r"^s10::s_ipfix_template_(2p_c2|1p_c1pad)$", r"^s10::s_ipfix_options_template_(1_1_c2|2_1_c2)$"],
